@@ -30,7 +30,7 @@ ASSUMPTIONS = [
     "re.fullmatch decides membership correctly for this syntax (cross-checked by an independent matcher)",
 ]
 TRUSTED = ["CPython re", "Hypothesis", "reference parser/matcher in vf/props/c31.py"]
-REGISTER = False
+REGISTER = True
 TECHNIQUE = "exhaustive small-AST x all-short-strings enumeration + Hypothesis larger expressions against re.fullmatch"
 LEVEL_TEXT = (
     "Exploration, exhaustive for all expressions up to AST size 5 and all strings up to length 5: the DFA "
@@ -816,7 +816,7 @@ def _enum_worker(arg):
                 stats.sample({"pattern": p, "alphabet": case["alphabet"], "maxlen": maxlen, "members": sorted(s for s in all_strings(case["alphabet"], 3) if re.fullmatch(p, s))[:6]})
             continue
         kid = classify_failure(case, f)
-        if kid:
+        if kid and kid in core.open_finding_ids(PID):
             stats.known[kid] += 1
         elif len(fails) < 3:
             fails.append((case, f.msg))
